@@ -1,7 +1,21 @@
 package main
 
-import "verif/sim/simkit"
+import (
+	"encoding/json"
+
+	"verif/sim/simkit"
+	"verif/sim/worlds/pw"
+	"verif/sim/worlds/pwrun"
+)
 
 func runOther(req *request) *simkit.Outcome {
+	switch req.World {
+	case "pw":
+		var sc pw.Scenario
+		if err := json.Unmarshal(req.Scenario, &sc); err != nil {
+			return &simkit.Outcome{Harness: "bad pw scenario: " + err.Error()}
+		}
+		return pwrun.Run(&sc)
+	}
 	return &simkit.Outcome{Harness: "unknown world " + req.World}
 }
